@@ -24,6 +24,7 @@ def run(chk):
     chk.attempt(r16b, chk, 'R03.e')
     chk.attempt(r03f, chk)
     chk.attempt(r03g, chk)
+    chk.attempt(r03h, chk)
 
 
 def raw_allowed(nfa_node):
@@ -355,3 +356,47 @@ def r03g(chk, rid='R03.g'):
             bad.append(f'{shape}: {[t for t, _ in after]}' + (f' ({res!r})' if isinstance(res, Raised) else ''))
     chk.ob(rid, rel, 'CSSImportRule._setMedia', f'the media item replaces the old one or goes directly behind the href ({len(shapes)} item lists)', not bad,
            '; '.join(bad[:3]) + ': the rule is written with the media list in front of its target (or twice), text that does not reparse to the rule')
+
+
+def r03h(chk, rid='R03.h'):
+    chk.rule(rid, 'the writer trims white-space *items*, never the text of an item, decided by evaluation: Out.append / Out.value (evaluated from the source) and '
+                  'CSSSerializer.do_css_Selector writing through them are run for item texts that end in an escaped blank (`.a\\ `, `x\\ `), an escaped tab or a '
+                  'non-ASCII space (U+00A0, part of an identifier), alone and followed by the single S the writer adds itself: the text returned ends with the '
+                  'whole item - a trimmed `\\ ` leaves a backslash that escapes whatever the caller writes next (`,` `;` `{`), so the reparsed sheet differs')
+    from sa.absint import Evaluator, Raised, Record
+
+    from .c06 import out_model
+
+    serm = chk.repo.mod(SER)
+    prefs = Record(spacer=' ', selectorCombinatorSpacer=' ', keepComments=True, indentClosingBrace=False, listItemSpacer=' ', propertyNameSpacer=' ', paranthesisSpacer=' ', lineSeparator='\n', minimizeColorHash=True)
+    ser = Record(prefs=prefs, _level=0)
+    n = 0
+    for item in ('.a\\ ', 'x\\ ', 'x\\\t', 'a ', '.b\\  '):
+        for typ in ('class', 'IDENT', 'type-selector'):
+            for keepS in (False, True):
+                out = out_model(chk, ser)
+                out.append(item, typ)
+                got = out.value(keepS=keepS)
+                n += 1
+                ok = isinstance(got, str) and (got == item or (keepS and got.startswith(item) and not got[len(item):].strip(' ')))
+                if not ok or n <= 1:
+                    chk.ob(rid, SER, 'Out.value', f'an item {item!r} ({typ}) is returned whole (keepS={keepS})', ok, f'returned {got!r}: the item lost its last character')
+        # the same item followed by another one: joined text keeps both
+        out = out_model(chk, ser)
+        out.append(item, 'IDENT')
+        out.append('y', 'IDENT')
+        got = out.value()
+        n += 1
+        ok = isinstance(got, str) and got.startswith(item) and got.endswith('y')
+        if not ok:
+            chk.ob(rid, SER, 'Out.value', f'an item {item!r} in front of another item is written whole', ok, f'returned {got!r}')
+        selector = Record(wellformed=True, seq=[Record(type='class', value=item)], _namespaces=Record(get=lambda k, d=None: None, prefixForNamespaceURI=lambda u: 'p'))
+        got = Evaluator(serm.get('CSSSerializer.do_css_Selector'), intrinsics={'Out': lambda s: out_model(chk, s), 'cssutils': Record(_ANYNS='ANY')}, module=serm, cls='CSSSerializer').run(self=ser, selector=selector)
+        n += 1
+        chk.ob(rid, SER, 'CSSSerializer.do_css_Selector', f'a selector whose last item is {item!r} is written whole', got == item, f'written as {got!r}')
+    # and white-space items at the end are removed unless kept
+    out = out_model(chk, ser)
+    out.append('a', 'IDENT')
+    got = out.value()
+    chk.ob(rid, SER, 'Out.value', 'the single S the writer adds after an item is removed at the end', got == 'a', f'returned {got!r}')
+    chk.ob(rid, SER, 'Out.value', f'all {n} trailing-item cases evaluated', True)
